@@ -13,7 +13,8 @@ RULE = ('bases: the in-tree fixture config and randomly synthesised VALID config
         'blow-up 1..16, queries 1..48, pow 20..50, columns of the 7 layouts); from each base: every single-field perturbation by -1/+1, every '
         'numeric field set to each of {0,1,2,15,16,17,47,48,49,2^16,2^40,2^64,2^128,P-2,P-1}, vector truncations/extensions, consistent '
         're-declarations (trace halved & blow-up doubled, trace doubled with FRI untouched, blow-up = P-2 with modular re-declaration), '
-        'security level around the threshold. non-trivial = differs from its base; distinct = distinct lines.')
+        'security level around the threshold; every bound of the validation met by an otherwise fully consistent configuration (blow-up 0/1/16/17, queries 0/1/48/49, last bound 0/15/16, '
+        'layers 1/2/15/16, step 0/5, first step 1, pow 19/51) with all dependent numbers re-derived. non-trivial = differs from its base; distinct = distinct lines.')
 ASSUMPTIONS = ['harness built with stable rustc instead of the repo-pinned 1.82']
 TRUSTED = ['Python oracle: the property sentence transcribed over Python integers (no modular arithmetic)']
 
@@ -167,6 +168,26 @@ def mutants(rng, base, tier):
             out.append(mk(c, min(sec, threshold(c)), f'truncated-consistent:inner={k},steps={"kept" if keep_steps else "cut"}'))
             c2 = copy.deepcopy(c); c2['steps'] = c2['steps'][:k + 1] + [rng.choice([0, 5, 9, P - 1])] * (nl - 1 - k)
             out.append(mk(c2, min(sec, threshold(c2)), f'truncated-consistent:inner={k},trailing-steps-out-of-range'))
+    # every bound of the validation met by an otherwise fully CONSISTENT configuration: one parameter just outside (or on) its bound with all
+    # dependent numbers (heights, input size, inner layers, steps, security request) re-derived from it
+    def consistent(c_, nq_, steps_, last_, pw_):
+        t_ = sum(steps_) + last_; lis_ = t_ + c_
+        inner_, h = [], lis_
+        for s_ in steps_[1:]:
+            h -= s_; inner_.append([1 << s_, h, base['nf']])
+        return {'t': t_, 'c': c_, 'nq': nq_, 'nf': base['nf'], 'pow': pw_, 'orig': [base['nc1'], lis_, base['nf']], 'inter': [base['nc2'], lis_, base['nf']],
+                'comp': [2, lis_, base['nf']], 'lis': lis_, 'nl': len(steps_), 'last': last_, 'steps': list(steps_), 'inner': inner_, 'nc1': base['nc1'], 'nc2': base['nc2']}
+    bs, bl, bq, bc, bp = base['steps'][:base['nl']], base['last'], base['nq'], base['c'], base['pow']
+    for kind, cfg_ in [('blowup=0', consistent(0, bq, bs, bl, bp)), ('blowup=1', consistent(1, bq, bs, bl, bp)), ('blowup=16', consistent(16, bq, bs, bl, bp)),
+                       ('blowup=17', consistent(17, bq, bs, bl, bp)), ('queries=0', consistent(bc, 0, bs, bl, bp)), ('queries=1', consistent(bc, 1, bs, bl, bp)),
+                       ('queries=48', consistent(bc, 48, bs, bl, bp)), ('queries=49', consistent(bc, 49, bs, bl, bp)),
+                       ('last=15', consistent(bc, bq, bs, 15, bp)), ('last=16', consistent(bc, bq, bs, 16, bp)), ('last=0', consistent(bc, bq, bs, 0, bp)),
+                       ('layers=1', consistent(bc, bq, [0], bl, bp)), ('layers=2', consistent(bc, bq, [0, 2], bl, bp)),
+                       ('layers=15', consistent(bc, bq, [0] + [1] * 14, bl, bp)), ('layers=16', consistent(bc, bq, [0] + [1] * 15, bl, bp)),
+                       ('step=5', consistent(bc, bq, [0, 5], bl, bp)), ('step=0', consistent(bc, bq, [0, 0, 2], bl, bp)), ('first-step=1', consistent(bc, bq, [1, 2], bl, bp)),
+                       ('pow=19', consistent(bc, bq, bs, bl, 19)), ('pow=51', consistent(bc, bq, bs, bl, 51)), ('blowup=0,queries=0', consistent(0, 0, bs, bl, bp))]:
+        for sec_ in (0, min(threshold(cfg_), 60)):
+            out.append(mk(cfg_, sec_, 'bound-consistent:' + kind))
     # several fields at once (random), verdict by the oracle and by the model
     for _ in range(30 if tier == 'quick' else 300):
         c = copy.deepcopy(base)
